@@ -448,6 +448,86 @@ func init() {
 			}
 		}, nil
 	}
+	// an Evidence that validated and signed a claims-set is then given another claims-set that encodes to the very same
+	// bytes but is NOT valid (same content under another canonical profile, in a stricter derived type, or the first
+	// object changed in place): the gates judge the claims-set they are given, not the bytes
+	Scenarios["c08.same-bytes-other-verdict"] = func() (choice.Scenario, func() any) {
+		k := fixtures.Get("ES256", 1)
+		return func(c *choice.Ctx) {
+			p := 1 + c.Choose("profile", 2)
+			a := *c02Claims()[map[int]int{1: 2, 2: 0}[p]]
+			if p == 1 {
+				a.Profile = sp(refmodel.P1Name)
+			}
+			x, err := buildBySetters(&a)
+			if err != nil {
+				return
+			}
+			ev := &psatoken.Evidence{}
+			if ev.SetClaims(x) != nil {
+				return
+			}
+			times := 1 + c.Choose("signed-before", 2)
+			for i := 0; i < times; i++ {
+				if _, err := ev.ValidateAndSign(k.Signer()); err != nil {
+					return
+				}
+			}
+			before, _ := psatoken.EncodeClaimsToCBOR(x)
+			how := c.Choose("second-claims-set", 3)
+			var y psatoken.IClaims
+			switch how {
+			case 0: // the same object, its canonical profile changed in place
+				switch t := x.(type) {
+				case *psatoken.P1Claims:
+					t.CanonicalProfile = "http://other.example/p"
+				case *psatoken.P2Claims:
+					t.CanonicalProfile = "http://other.example/p"
+				}
+				y = x
+			case 1: // a by-value copy under another canonical profile, attached by assignment
+				switch t := x.(type) {
+				case *psatoken.P1Claims:
+					cp := *t
+					cp.CanonicalProfile = "http://other.example/p"
+					y = &cp
+				case *psatoken.P2Claims:
+					cp := *t
+					cp.CanonicalProfile = "http://other.example/p"
+					y = &cp
+				}
+				ev.Claims = y
+			case 2: // the same content in the stricter derived type (profile 2 only): its rules refuse a negative client id ...
+				t, ok := x.(*psatoken.P2Claims)
+				if !ok {
+					return
+				}
+				cp := *t
+				neg := int32(-5)
+				cp.ClientID = &neg
+				// ... so first sign the base claims with that client id, then attach the derived object with the same content
+				if ev.SetClaims(&cp) != nil {
+					return
+				}
+				if _, err := ev.ValidateAndSign(k.Signer()); err != nil {
+					return
+				}
+				before, _ = psatoken.EncodeClaimsToCBOR(&cp)
+				y = &ExtStrictClaims{P2Claims: cp}
+				ev.Claims = y
+			}
+			after, aerr := psatoken.EncodeClaimsToCBOR(y)
+			if aerr != nil || !bytes.Equal(before, after) || y.Validate() == nil {
+				return // not the situation this scenario is about
+			}
+			tag := fmt.Sprintf("P%d:second-claims-set-%d:signed-before-%d", p, how, times)
+			c08stats.StateStr(tag)
+			c08stats.Trans.Add(1)
+			if tok, err := ev.ValidateAndSign(k.Signer()); err == nil {
+				c.Failf("C08:ValidateAndSign:same-bytes-other-verdict:"+tag, "ValidateAndSign produced a token (%d bytes) for a claims-set whose Validate() fails; it encodes to the bytes of the claims-set validated before", len(tok))
+			}
+		}, nil
+	}
 	for _, p := range []int{1, 2} {
 		for b := 0; b < 4; b++ {
 			p, b := p, b
@@ -484,7 +564,7 @@ func init() {
 	Checks["C08"] = func(r *evid.Run) {
 		registerStandardExt()
 		c08stats = NewStats()
-		dl := deadline(r, 50*time.Second, 15*time.Minute)
+		dl := deadline(r, 120*time.Second, 15*time.Minute)
 		for _, p := range []int{1, 2} {
 			if !thorough(r) {
 				for b := 0; b < 4; b++ {
@@ -502,6 +582,7 @@ func init() {
 			}
 		}
 		exploreChoice(r, "c08.component-changed-after-validation", -1, dl)
+		exploreChoice(r, "c08.same-bytes-other-verdict", -1, dl)
 		exploreChoice(r, "c08.shadowing-profile", -1, dl)
 		exploreChoice(r, "c08.envelope-forms", -1, dl)
 		exploreChoice(r, "c08.strict-profile", map[bool]int{false: 2, true: 3}[thorough(r)], dl)
